@@ -42,6 +42,62 @@ def judge(texts):
     return None
 
 
+def gen_steps(rng):
+    """ONE builder used incrementally: after every added stage the config is constructed again.  Expectations are computed from the
+    scenario (which placeholders were written / filled / deleted so far), never from the built tree."""
+    fills = {'a': 'a: 5', 'b.c': 'b: {c: 2}', 'b.d[1]': 'b: {d: {1: 3}}', 'f.p': 'f: {p: 1}'}
+    base_doc = '{a: !required , b: {c: !required , d: [1, !required ]}, f: !call:vmod.f {p: !required }, k: 1}'
+    missing = set(fills)
+    steps = [(base_doc, sorted(missing))]
+    order = list(fills)
+    rng.shuffle(order)
+    if rng.random() < 0.4:
+        cut = rng.randint(0, len(order))
+        for p in order[:cut]:
+            missing.discard(p)
+            steps.append(('{' + fills[p] + '}', sorted(missing)))
+        steps.append(('!del {}', []))                       # forget everything so far, placeholders included
+        missing = set()
+    else:
+        for p in order:
+            missing.discard(p)
+            steps.append(('{' + fills[p] + '}', sorted(missing)))
+    # the config has been constructed successfully by now; a later stage brings new placeholders
+    steps.append(('{z: {w: !required , l: [!required ]}}', ['z.l[0]', 'z.w']))
+    steps.append(('{z: {w: 1}}', ['z.l[0]']))
+    steps.append(('{z: {l: !del }}' if rng.random() < 0.5 else '{z: {l: [7]}}', []))
+    return steps
+
+
+def judge_steps(steps):
+    from awesomeyaml.config import Config
+    from awesomeyaml.builder import Builder
+    evalcorr.install_vmod()
+    b = Builder()
+    for i, (text, expect) in enumerate(steps):
+        b.add_source(text, raw_yaml=True, filename=f'<s{i}>')
+        del evalcorr.CALL_LOG[:]
+        try:
+            root = b.build()
+            base.with_watchdog(lambda: Config(root))
+            kind, msg = 'ok', ''
+        except base.Hang:
+            return dict(steps=steps, at=i, reason='does not terminate')
+        except Exception as e:
+            kind, msg = evalcorr.err_kind(e), str(e)
+        if expect:
+            if kind != 'EMissing':
+                return dict(steps=[t for t, _ in steps[:i + 1]], at=i, reason='surviving placeholders must fail the construction (before anything is evaluated) with the list of their paths', expected=expect, got=kind, message=msg[:300])
+            listed = sorted(eval(m) for m in re.findall(r"^\s+('.*'|\".*\")\s*$", msg, flags=re.M))
+            if listed != expect:
+                return dict(steps=[t for t, _ in steps[:i + 1]], at=i, reason='the error must list exactly the surviving placeholders', expected=expect, listed=listed)
+            if evalcorr.CALL_LOG:
+                return dict(steps=[t for t, _ in steps[:i + 1]], at=i, reason='something was evaluated before the missing placeholders were reported', executed=list(evalcorr.CALL_LOG))
+        elif kind != 'ok':
+            return dict(steps=[t for t, _ in steps[:i + 1]], at=i, reason='no placeholder survives (all were overwritten or deleted by later stages), yet construction failed', got=kind, message=msg[:300])
+    return None
+
+
 def run(rep, tier, rng):
     rep.rule = ('1-2 stage configs with !required at top level, in nested mappings, lists and call/bind arguments; later stages override or delete random subsets. '
                 'non-trivial = at least one placeholder in some stage; distinct = hash')
@@ -58,12 +114,14 @@ def run(rep, tier, rng):
     for t in inputs:
         rep.case('\n'.join(t), any('!required' in x for x in t), sample=t)
     base.run_oracle(rep, 'C14', 'fails iff a placeholder survives; all paths listed; nothing evaluated first', inputs, judge)
+    base.run_oracle(rep, 'C14', 'one builder used incrementally: placeholders filled / deleted (incl. a top-level !del {}) / introduced after a successful construction',
+                    [gen_steps(rng) for _ in range(40 if tier == 'quick' else 600)], judge_steps, show=lambda st: dict(steps=[list(x) for x in st]))
 
 
 def replay(data):
     r = data['replay']
     if 'input' in r:
-        f = judge(r['input'])
+        f = judge_steps([tuple(x) for x in r['input']['steps']]) if isinstance(r['input'], dict) else judge(r['input'])
         print('replay:', 'property FAILS' if f else 'property holds', f or '')
         return 1 if f else 0
     print('no input to replay; broken obligations:', r)
